@@ -179,6 +179,12 @@ def spd_system(rng):
             return tw
     n = int(rng.integers(1, 31))
     fam = str(rng.choice(["gram", "gram_illcond", "banded", "banded_gram", "neg_offdiag"]))
+    big = rng.random() < 0.06
+    if big:
+        # realistic sizes: more than 50 (up to ~130) parameters, most of them positive at the optimum, so that the solver's main
+        # loop runs well past 50 passes from a cold start
+        n = int(rng.integers(52, 131))
+        fam = str(rng.choice(["gram", "banded", "banded_gram"]))
     if fam in ("gram", "gram_illcond"):
         m = n + int(rng.integers(0, 12))
         Z = rng.normal(size=(m, n))
@@ -216,6 +222,9 @@ def spd_system(rng):
         A = (A + A.T) / 2 + 1e-3 * np.eye(n)
     A = (A + A.T) / 2.0
     rk = str(rng.choice(["positive", "zero_mean", "negative", "mostly_negative", "mixed_scaled"]))
+    if big:
+        rk = "positive" if rng.random() < 0.7 else "zero_mean"
+        fam += "*50+params"
     if rk == "positive":
         D = rng.random(n) + 0.05
     elif rk == "zero_mean":
